@@ -10,14 +10,14 @@ COMMON_TRUST = [
 PROPS = {}
 
 PROPS["C14"] = dict(
-    units=[("verus", "bytecode"), ("kani", "codec"), ("verus", "emitter")],
+    units=[("verus", "bytecode"), ("kani", "codec"), ("verus", "emitter"), ("verus", "vmcore")],
     explanation="make/read_operands/DEFINITIONS/Opcode::from verified mutually inverse for every opcode and every "
                 "operand value that fits its width (lemma_roundtrip), and an operand that does not fit is never "
                 "recovered (lemma_unfit_not_recovered), so silent truncation is a decode mismatch. emit/change_operand/patch_jump record "
                 "a compile error for every operand that does not fit its width (operands_fit == the spec predicate), and compile() "
                 "returns Err whenever one was recorded.",
     not_covered=["that each compile_* call site passes the operand count of its opcode to emit",
-                 "the VM's inline operand decoding (vmarms unit, when built)"],
+                 "VM::run's fetch/dispatch loop header and tail (each of its 48 arms is verified: it decodes big-endian operands of exactly the encoder's widths and leaves ip on the last operand byte)"],
     assumptions=["lazy_static evaluates the DEFINITIONS initializer exactly once and DEFINITIONS.get is HashMap::get on it (R6)",
                  "byteorder::WriteBytesExt::write_u16::<BigEndian>/write_u8 append the big-endian bytes (shim contracts)",
                  "derived Hash/Eq of the field-less enum Opcode obey the HashMap key model"],
@@ -49,20 +49,23 @@ PROPS["C03"] = dict(
 )
 
 PROPS["C06"] = dict(
-    units=[("kani", "ops")],
-    explanation="Object::is_falsey equals the documented table for every Bool, Integer, Float (incl. -0.0, NaN), Char, Byte value and Null.",
-    not_covered=["Str/Arr/Map emptiness (HashMap/String are outside Kani's reach; is_empty calls read)",
-                 "compile_logical_and/or jump emission; Bang/JumpIfFalse arms (vmarms unit, when built)"],
+    units=[("kani", "ops"), ("verus", "vmcore")],
+    explanation="Object::is_falsey equals the documented table for every Bool, Integer, Float (incl. -0.0, NaN), Char, Byte value and Null (Kani, real code). "
+                "The VM arms Bang, JumpIfFalse and JumpIfFalseNoPop are verified to use exactly that predicate: Bang replaces v by Bool(falsey(v)); "
+                "JumpIfFalse pops and jumps to the encoded target iff falsey; JumpIfFalseNoPop does the same without popping (so a && b / a || b yield an operand, not a boolean).",
+    not_covered=["Str/Arr/Map emptiness rows of the table (HashMap/String are outside Kani's reach; the is_empty calls are read, not proved)",
+                 "compile_logical_and/or jump emission; filter patterns (pop_filter_frame requires a Bool)"],
     assumptions=[],
     trusted=COMMON_TRUST,
 )
 
 PROPS["C08"] = dict(
-    units=[("kani", "ops"), ("verus", "vmcore"), ("kani", "headers")],
+    units=[("kani", "ops"), ("verus", "vmcore"), ("kani", "headers")] + [("verus", "hdrser.%s" % k) for k in ("tcp", "udp", "eth", "vlan", "ipv4", "ipv6")],
     explanation="Operator impls are panic-free on every scalar pair the VM lets through (Kani, full domain); the VM's stack/frame "
                 "helpers, call_func, call_builtin, push_closure, binary_op, bitwise_op are verified panic-free under the VM "
                 "representation invariant and preserve it (Verus); header parsers return Err on every truncated buffer.",
-    not_covered=["VM::run as a whole (its arms are verified in vmarms when built)", "builtins (argument boundary checks)", "compile_* emission"],
+    not_covered=["VM::run's loop header/tail and the facts each arm assumes from the compiler (operands index existing constants/locals/free variables; operands were pushed)",
+                 "exec_index_expr / exec_prop_expr / exec_dollar_expr / build_map bodies (behind contracts)", "builtins (argument boundary checks)", "compile_* emission"],
     assumptions=["operands the compiler encodes (constant index, free count, argument count) are within the VM state they index (precondition of the helpers)",
                  "num_locals of a compiled function is below 2^32"],
     trusted=COMMON_TRUST,
@@ -74,7 +77,7 @@ PROPS["C09"] = dict(
                 "IEEE model; comparisons are exact on integers and IEEE otherwise, consistent with ==. binary_op/bitwise_op return Ok only for "
                 "(operator, kind, kind) combinations of the C09 table and call the operator only on its panic-free domain.",
     not_covered=["float % value (CBMC has no fmod: result kind only)", "string/char lexicographic compare beyond chars (std String::partial_cmp assumed)",
-                 "Minus/Not opcode arms (vmarms unit, when built)"],
+                 "operator semantics of Equal/NotEqual beyond the ops harnesses"],
     assumptions=["the closure passed with each BinaryOperation is the operator of the same name (checked per arm in vmarms)"],
     trusted=COMMON_TRUST,
 )
@@ -93,27 +96,31 @@ PROPS["C13"] = dict(
     units=[("verus", "vmcore"), ("verus", "bytecode"), ("verus", "emitter")],
     explanation="emit/add_instruction/replace_instruction/change_operand/patch_jump/remove_last_pop keep lines.len() == code.len() and never change the line of a surviving byte; make() records the given line for every byte of an instruction; every RTError built by the verified VM helpers "
                 "(push/pop/top, call_func, call_builtin, push_closure, binary_op, bitwise_op, exec_call, push_frame) carries the line argument.",
-    not_covered=["that the compiler passes the right token's line to emit", "errors built inside the opcode arms (vmarms unit, when built)"],
+    not_covered=["that the compiler passes the right token's line to emit", "errors raised inside exec_index_expr / exec_prop_* / exec_dollar_expr / build_map bodies (their contracts are assumed)",
+                 "that `line` passed to the arms is instructions.lines[ip] (one line of VM::run's loop header)"],
     assumptions=[],
     trusted=COMMON_TRUST,
 )
 
 PROPS["C15"] = dict(
-    units=[("kani", "headers")],
-    explanation="For every header content of each layer, serialising a freshly parsed layer returns the captured bytes from its offset.",
-    not_covered=["payload longer than the harness bound (unbounded half: headers Verus unit, when built)", "cached inner layers / error objects (pktprop)"],
+    units=[("kani", "headers"), ("kani", "pcapcodec")] + [("verus", "hdrser.%s" % k) for k in ("tcp", "udp", "eth", "vlan", "ipv4", "ipv6")],
+    explanation="Unbounded half (Verus, every buffer length and offset): each layer's from_bytes sets offset = off + header length <= len, and "
+                "From<&Layer> for Vec<u8> returns header bytes ++ rawdata[offset..] when no inner layer is cached (header bytes ++ the inner object's bytes otherwise). "
+                "Header half (Kani, every header content): serialising the parsed header gives back the captured header bytes (bounded_checks: with a short payload attached).",
+    not_covered=["that a cached inner layer serialises to rawdata[offset..] (induction over the layer chain through From<&Object>); cached error objects (pktprop getters)",
+                 "PcapPacket serialiser for unbounded payload"],
     assumptions=[],
     trusted=COMMON_TRUST,
 )
 PROPS["C16"] = dict(
-    units=[("kani", "headers")],
+    units=[("kani", "headers"), ("kani", "pcapcodec")] + [("verus", "hdrser.%s" % k) for k in ("tcp", "udp", "eth", "vlan", "ipv4", "ipv6")],
     explanation="For every header content of each layer, every getter equals the RFC field of the raw bytes, the parser fails exactly on truncated headers and the payload offset follows the header length fields.",
     not_covered=["address text (C18)", "layer dispatch get_inner / exec_prop_* (pktprop unit, when built)", "pcap global header (C19)"],
     assumptions=["TCP flags are the 12 bits after the data offset (reserved + control bits), so that serialisation stays lossless"],
     trusted=COMMON_TRUST,
 )
 PROPS["C17"] = dict(
-    units=[("kani", "headers")],
+    units=[("kani", "headers"), ("kani", "pcapcodec")],
     explanation="For every writable integer/bool field of every layer, every header content and every assigned i64: the stored value is the value reduced to the field width "
                 "(the value itself when in range) or the setter fails leaving everything unchanged; every other getter is unchanged; the serialised bytes differ only "
                 "inside the field's bit range; re-parsing reads the same value.",
@@ -130,9 +137,10 @@ PROPS["C04"] = dict(
                 "symbols with index = number of captures so far, returns None exactly when no table of the chain has a visible symbol, and leaves "
                 "the table unchanged when the name is local or unresolvable; leave_block keeps exactly the symbols not deeper than the block being "
                 "left. Lemmas: a new binding shadows (lemma_define_shadows), a binding of an ended block disappears and the previous one is back "
-                "(lemma_inner_binding_ends, lemma_filter_all_kept). VM::push_closure copies exactly the num_free top stack slots, in order, into the new closure.",
+                "(lemma_inner_binding_ends, lemma_filter_all_kept). VM side: the Closure arm / push_closure copy exactly the num_free top stack slots, in order, into the new closure at creation time; "
+                "GetFree reads closure.free[operand]; DefineGlobal/SetGlobal/GetGlobal read and write exactly globals[operand] (shared by reference); Get/Set/DefineLocal address stack[bp + operand].",
     not_covered=["that compile_identifier / Let / compile_function_literal / compile_block_statement call the table in that order (compiler emission)",
-                 "GetFree/SetFree/Closure opcode arms (vmarms unit, when built)", "globals by reference (GetGlobal/SetGlobal arms)"],
+                 "that compile_function_literal emits the free-symbol loads in free_symbols order"],
     assumptions=["std HashMap<String, Vec<_>>: get / insert / entry().or_default().push() / values_mut()+retain have their documented meaning over the abstract view (5 shims)",
                  "fewer than 2^64 definitions / captures per table"],
     trusted=COMMON_TRUST,
